@@ -261,8 +261,11 @@ def _excerpts(hay: str, secrets: list[str]) -> list[str]:
 
 
 # ------------------------------------------------------------------------------------------------------------------
-def name_class(name: str, cfg: str, sens: dict) -> str:
+def name_class(name: str, cfg: str, sens: dict, route: str = "") -> str:
     low = name.lower()
+    header = {"gen-cookie": "cookie", "resp-set-cookie": "set-cookie"}.get(route)
+    if header and sens.get((header, cfg)):
+        return "cookie-header-sensitive" + ("" if cfg == "default" else ":" + cfg)
     return ("sensitive" if sens.get((low, cfg)) else "plain") + ("" if cfg == "default" else ":" + cfg)
 
 
@@ -344,14 +347,14 @@ def run(ctx: Ctx) -> Outcome:
         u = units[i]
         for form, _, direction in sorted(bad):
             out.violations.append(Violation(
-                "C15:unit:%s:%s:%s" % (form, direction, name_class(text(u["name"]), u["cfg"], sens)),
+                "C15:unit:%s:%s:%s" % (form, direction, "userinfo" if form == "curl-api-userinfo" else name_class(text(u["name"]), u["cfg"], sens)),
                 "%s(%r) under %s config: %s" % (form, text(u["name"]), u["cfg"], direction), {"kind": "unit", "unit": u}))
     for i, bad in sorted(run_bad.items()):
         r = observed[i]
         for route, sink, direction in sorted(bad):
             nm = text_name(r, route)
             out.violations.append(Violation(
-                "C15:%s:%s:%s:%s" % (route, sink, direction, "userinfo" if route == "url-userinfo" else name_class(nm, r["cfg"], sens)),
+                "C15:%s:%s:%s:%s" % (route, sink, direction, "userinfo" if route == "url-userinfo" else name_class(nm, r["cfg"], sens, route)),
                 "run #%d (%s, cfg=%s, sanitize=%s): canary of route %s (carrier %r) %s %s; e.g. %s" % (
                     r["idx"], r["mode"], r["cfg"], r["sanitize"], route, nm,
                     "found in" if direction == "leak" else "not found in", sink,
